@@ -133,6 +133,45 @@ type H struct {
 	txCancelled map[uint64]bool
 	txDeps      []txDep
 	lastTxRes   []*abci.ExecTxResult
+	// what governance configured per message type in this sequence (nil = removed): MsgUpdateCustomParams delivered
+	// directly or executed by a passed proposal; only the types touched in the sequence are tracked
+	cfg map[string]*fxgovtypes.CustomParams
+}
+
+// setConfigured records what a successful MsgUpdateCustomParams configured for a message type
+func (h *H) setConfigured(m *fxgovtypes.MsgUpdateCustomParams) {
+	if h.cfg == nil {
+		h.cfg = map[string]*fxgovtypes.CustomParams{}
+	}
+	if m.GetCustomParams() == (fxgovtypes.CustomParams{}) {
+		h.cfg[m.MsgUrl] = nil
+		return
+	}
+	cp := m.CustomParams
+	h.cfg[m.MsgUrl] = &cp
+}
+
+// checkConfigured: the custom parameters configured for a message type ARE what the keeper's look-up for a proposal of
+// that type finds (GetCustomParams is what GetCustomMsgVotingPeriod / GetCustomMsgQuorum / the EGF rule read)
+func (h *H) checkConfigured() {
+	urls := make([]string, 0, len(h.cfg))
+	for u := range h.cfg {
+		urls = append(urls, u)
+	}
+	sort.Strings(urls)
+	for _, u := range urls {
+		want := h.cfg[u]
+		got, found := h.s.App.GovKeeper.GetCustomParams(h.ctx(), u)
+		h.out.Count("configured:checked")
+		switch {
+		case want == nil && found:
+			h.out.Violate(fmt.Sprintf("custom parameters of message type %s were removed by governance but the look-up for that type still finds period %s quorum %s", u, got.VotingPeriod, got.Quorum))
+		case want != nil && !found:
+			h.out.Violate(fmt.Sprintf("custom parameters configured for message type %s (period %s, quorum %s) are not found by the look-up for that type", u, want.VotingPeriod, want.Quorum))
+		case want != nil && (got.VotingPeriod == nil || want.VotingPeriod == nil || *got.VotingPeriod != *want.VotingPeriod || got.Quorum != want.Quorum || got.DepositRatio != want.DepositRatio):
+			h.out.Violate(fmt.Sprintf("custom parameters configured for message type %s are period %s quorum %s ratio %s, the look-up for that type finds period %s quorum %s ratio %s", u, want.VotingPeriod, want.Quorum, want.DepositRatio, got.VotingPeriod, got.Quorum, got.DepositRatio))
+		}
+	}
 }
 
 func cellKey(k int) []byte { return []byte{0xFE, 0xC1, 0x50 + byte(k)} }
@@ -398,8 +437,9 @@ func (h *H) observe() snap {
 	for _, v := range vs {
 		vss = append(vss, v.s)
 	}
-	sn.line = fmt.Sprintf("gov=%s props=[%s] deps=[%s] inact=[%s] act=[%s] bal=[%s] kv=%s cust=[%s] votes=[%s]",
-		sn.govAll.AmountOf(denom), strings.Join(ps, ";"), strings.Join(dss, ";"), strings.Join(sn.inactive, ";"),
+	nid, _ := k.ProposalID.Peek(ctx)
+	sn.line = fmt.Sprintf("nid=%d gov=%s props=[%s] deps=[%s] inact=[%s] act=[%s] bal=[%s] kv=%s cust=[%s] votes=[%s]",
+		nid, sn.govAll.AmountOf(denom), strings.Join(ps, ";"), strings.Join(dss, ";"), strings.Join(sn.inactive, ";"),
 		strings.Join(sn.active, ";"), strings.Join(bs, ";"), strings.Join(cs, ","), strings.Join(cus, ";"), strings.Join(vss, ";"))
 	return sn
 }
@@ -844,6 +884,29 @@ func (h *H) monitor(op string, before, after snap, paidWho int, paid int64, spec
 			}
 		}
 	}
+	// what the proposals that PASSED in this block configured (queue order = execution order), for checkConfigured
+	{
+		var pids []uint64
+		for pid, ap := range after.props {
+			if bp, ok := before.props[pid]; ok && bp.status == "voting" && ap.status == "passed" {
+				pids = append(pids, pid)
+			}
+		}
+		sort.Slice(pids, func(i, j int) bool {
+			a, b := before.props[pids[i]], before.props[pids[j]]
+			if a.vEnd != nil && b.vEnd != nil && !a.vEnd.Equal(*b.vEnd) {
+				return a.vEnd.Before(*b.vEnd)
+			}
+			return pids[i] < pids[j]
+		})
+		for _, pid := range pids {
+			for _, m := range h.props[pid] {
+				if um, isUpd := m.real.(*fxgovtypes.MsgUpdateCustomParams); isUpd {
+					h.setConfigured(um)
+				}
+			}
+		}
+	}
 	// (6) all-or-nothing: a failed proposal leaves no cell / custom-parameter write when it is the only one executed
 	nExec, failed := 0, false
 	for pid, p := range after.props {
@@ -931,6 +994,7 @@ func (h *H) emit(op string, before snap, err error, paidWho int, paid int64, spe
 		h.out.Violate("panic in gov message handling: " + err.Error())
 	}
 	h.monitor(op, before, after, paidWho, paid, specs)
+	h.checkConfigured()
 	return after
 }
 
@@ -1001,6 +1065,7 @@ func (h *H) opCustom(url string, remove bool, r *big.Int, period int64, q *big.I
 		h.out.Count("custom:err")
 		return
 	}
+	h.setConfigured(msg)
 	h.emit(op, before, nil, -1, 0, nil)
 }
 
@@ -1961,42 +2026,56 @@ func TestC15(t *testing.T) {
 		h := newH(t, out, rng, 3, 4)
 		h.start(facts)
 		h.scenarioExpedited(cp)
+		h.genesisRoundTrip()
 	}
 	{
 		h := newH(t, out, rng, 3, 4)
 		h.start(facts)
 		h.scenarioEGF()
+		h.genesisRoundTrip()
 	}
 	{
 		h := newH(t, out, rng, 3, 4)
 		h.start(facts)
 		h.scenarioLegacy()
+		h.genesisRoundTrip()
 	}
 	for _, sl := range []bool{false, true} {
 		h := newH(t, out, rng, 4, 4)
 		h.start(facts)
 		h.scenarioTally(sl)
+		h.genesisRoundTrip()
 	}
 	{
 		h := newH(t, out, rng, 3, 4)
 		h.start(facts)
 		h.scenarioTx()
+		h.genesisRoundTrip()
 	}
 	for i, c := range [][2]int64{{0, 1}, {1, 1}, {1, 3}} {
 		h := newH(t, out, rng, 3, 4)
 		h.start(facts)
 		h.scenarioCancel(c, []int{0, 1, 5}[i])
+		h.genesisRoundTrip()
 	}
 	{
 		h := newH(t, out, rng, 3, 4)
 		h.start(facts)
 		h.scenarioMidFlight()
+		h.genesisRoundTrip()
+	}
+	{
+		h := newH(t, out, rng, 3, 4)
+		h.start(facts)
+		h.scenarioSameBlock()
+		h.genesisRoundTrip()
 	}
 	nSeq := hx.N(240, 1500)
 	for i := 0; i < nSeq; i++ {
 		h := newH(t, out, rng, 2+rng.Intn(4), 4)
 		h.start(facts)
 		h.randomSequence(40 + rng.Intn(40))
+		h.genesisRoundTrip()
 	}
 	for k, v := range out.Stats.Hist {
 		if v > 0 {
